@@ -120,6 +120,10 @@ func RunTags(file string, seed int64) (*Report, error) {
 					if form == "plain" || strings.Contains(string(got), c) {
 						props = []string{"C09"}
 					}
+					if form == "encrypted-wrong" || form == "hmac-wrong" {
+						// right kind of output, but not the operation applied to the original bytes under the key in force
+						props = append(props, "C16")
+					}
 					rep.mm(Mismatch{Props: props, What: "form of leaf " + path + " after the filter", Vector: vec, Expected: exp, Observed: form})
 				}
 			}
